@@ -8,6 +8,7 @@ import DimodProofs.DqmClosed
 import DimodProofs.CqmDomain
 import DimodProofs.ZipStrict
 import DimodProofs.ZipTrunc
+import DimodProofs.DqmLenChecked
 
 /-! # C10 — a truncated model file never loads as a different model -/
 
@@ -580,5 +581,44 @@ example : ∀ k, k < (([68, 73] : Bytes) ++ zipBytes 2 ([] ++ [ZEntry.mk [118] (
     (by intro z hz; simp only [List.nil_append, List.mem_singleton] at hz; subst hz; unfold ZEntry.OK; decide)
     (by intro z hz; simp only [List.nil_append, List.mem_singleton] at hz; subst hz; decide)
     (by decide) k hk
+
+/-! ## round 8: the DQM theorem with the length check where the code has it -/
+
+/-- **DQM files cut at any byte offset, NO condition on the payload, the loader as coded** (`_from_file_numpy` after the
+    round-7 repair: `blob = file_like.read(length); if len(blob) != length: raise ValueError` — `dqmDecodeLenChecked`, the
+    comparison is with the number the loader READ from the frame of the bytes it was given).  This lifts
+    `truncation_safe_dqm_length_checked_partial`: on every prefix of a written file the length field, if it is read at all,
+    reads as the recorded length (`dqmLen_of_prefix`), so the loader with the check inside agrees with the one whose opener
+    compares with `npz.length`, up to the class of the exception (`dqmDecode_sim_on_prefix`).  Every proper prefix raises or
+    returns the original with only `VARS` padding lost, given only that `np.load` reads the COMPLETE blob. -/
+theorem truncation_safe_dqm_length_checked (parse : Bytes → Option (Bool × H)) (parseVars : Bytes → Option (List J))
+    (openNpz : Bytes → Option (List NpyMember)) (hdrText npz varsText : Bytes) (labelled : Bool) (h : H) (c : DqmContent)
+    (labels : List J) (hh : HeaderOK parse hdrText (labelled, h)) (wf : DqmWF c)
+    (hfull : openNpz npz = some (dqmMembers c)) (hsz : npz.length < 256 ^ 4)
+    (hv : labelled = true → VarsOK parseVars varsText labels ∧ labels.length = c.caseStarts.length) :
+    ∃ pad, pad < 64 ∧ ∀ k, k < (dqmEncode hdrText labelled npz varsText).length →
+      (∃ er, (dqmDecodeLenChecked parse parseVars (fun blob => (openNpz blob).bind fun ms =>
+            match dqmFromMembers ms with | .ok d => some d | _ => none)
+          (fun d => d.caseStarts.length)).run ((dqmEncode hdrText labelled npz varsText).take k) = .err er) ∨
+      ((dqmDecodeLenChecked parse parseVars (fun blob => (openNpz blob).bind fun ms =>
+            match dqmFromMembers ms with | .ok d => some d | _ => none)
+          (fun d => d.caseStarts.length)).run ((dqmEncode hdrText labelled npz varsText).take k) =
+            .ok ((h, c, if labelled then some labels else none), []) ∧
+        (dqmEncode hdrText labelled npz varsText).length - pad ≤ k) := by
+  obtain ⟨pad, hp, hall⟩ := truncation_safe_dqm_length_checked_partial parse parseVars openNpz hdrText npz varsText labelled h c labels
+    hh wf hfull hsz hv
+  refine ⟨pad, hp, fun k hk => ?_⟩
+  have hsim := dqmDecode_sim_on_prefix parse parseVars
+    (fun blob => (openNpz blob).bind fun ms => match dqmFromMembers ms with | .ok d => some d | _ => none)
+    (fun d : DqmContent => d.caseStarts.length) hdrText npz varsText labelled h hh hsz k
+  have heq : (fun b : Bytes => if b.length ≠ npz.length then none else
+        (openNpz b).bind fun ms => match dqmFromMembers ms with | .ok d => some d | _ => none) =
+      (fun blob => (if blob.length ≠ npz.length then none else openNpz blob).bind fun ms =>
+        match dqmFromMembers ms with | .ok d => some d | _ => none) := by
+    funext b; by_cases hb : b.length ≠ npz.length <;> simp [hb]
+  rw [heq] at hsim
+  rcases hall k hk with herr | ⟨hok, hle⟩
+  · exact Or.inl (Res.sim_err hsim herr)
+  · exact Or.inr ⟨Res.sim_ok hsim hok, hle⟩
 
 end C10
